@@ -434,7 +434,7 @@ func readSourceIntentionsFromConfigEntriesForServiceTxn(
 		entry := v.(*structs.ServiceIntentionsConfigEntry)
 		entMeta := entry.DestinationServiceName().EnterpriseMeta
 
-		kind, err := serviceIntentionsToGatewayServiceKind(tx, entry.DestinationServiceName().Name, entMeta)
+		kind, err := serviceIntentionsToGatewayServiceKind(tx, ws, entry.DestinationServiceName().Name, entMeta)
 		if err != nil {
 			return nil, err
 		}
@@ -456,14 +456,15 @@ func readSourceIntentionsFromConfigEntriesForServiceTxn(
 	return results, nil
 }
 
-func serviceIntentionsToGatewayServiceKind(tx ReadTxn, serviceName string, entMeta acl.EnterpriseMeta) (structs.GatewayServiceKind, error) {
+func serviceIntentionsToGatewayServiceKind(tx ReadTxn, ws memdb.WatchSet, serviceName string, entMeta acl.EnterpriseMeta) (structs.GatewayServiceKind, error) {
 	var err error
 	kind := structs.GatewayServiceKindService
 
 	// if we have a wildcard namespace or partition assume we are querying a service intention
 	// as destination intentions will never be queried as wildcard
 	if entMeta.NamespaceOrDefault() != acl.WildcardName && entMeta.PartitionOrDefault() != acl.WildcardName {
-		kind, err = GatewayServiceKind(tx, serviceName, &entMeta)
+		// whether the intention is part of the result depends on the kind
+		kind, err = gatewayServiceKindTxn(tx, ws, serviceName, &entMeta)
 		if err != nil {
 			return kind, err
 		}
